@@ -394,7 +394,7 @@ def cases():
 def plan(tier, scale):
     n, sh = (60, 10) if tier == "quick" else (1500, 14)
     out = [{"part": "histories", "n": int(n * scale)} for _ in range(sh)]
-    bound = 2 if tier == "quick" else 4
+    bound = 2 if tier == "quick" else 3
     for first in (1, 2):
         for resend in (1, 2):
             out.append({"part": "race", "case": {"first": first, "resend": resend}, "bound": bound})
